@@ -38,7 +38,7 @@ class Opaque:
     def __eq__(self, other): return isinstance(other, Opaque) and other.n == self.n
     def __hash__(self): return hash(self.n)
 
-KINDS = ["bool", "int", "float", "str", "date", "datetime", "timedelta", "bytes", "object", "mixed", "datetime_ns"]
+KINDS = ["bool", "int", "float", "str", "date", "datetime", "timedelta", "bytes", "object", "mixed", "datetime_ns", "complex"]
 NA_TOKENS = ["None", "nan", "npnan", "nat"]
 
 def generate(rng, tier):
@@ -53,6 +53,9 @@ def generate(rng, tier):
         vals = [v if not isinstance(v, (list, tuple, dict)) else "obj" for v in vals]
     elif kind == "object":
         vals = [rng.choice([Opaque(1), Opaque(2), {"k": 1}, {"k": 2}, frozenset([1])]) for _ in range(n)]
+    elif kind == "complex":
+        # complex numbers are "arbitrary objects" as far as missing values go: there is no complex NA, None stays None
+        vals = [rng.choice([1 + 2j, 0j, -1.5j, 2 + 0j, 1e10 + 1j]) for _ in range(n)]
     elif kind == "datetime_ns":
         # nanosecond instants (NumPy scalars) with digits below the microsecond; dataiter keeps the unit it is given
         flavour = "numpy"
@@ -82,7 +85,7 @@ def generate(rng, tier):
     if rng.random() < 0.3 and container != "ndarray_object":
         dtype = {"bool": rng.choice(["object", "bool"]), "int": rng.choice(["int", "float", "object", "int64"]), "float": rng.choice(["float", "object"]),
                  "str": rng.choice(["str", "object"]), "date": rng.choice(["datetime64[D]", "object"]), "datetime": rng.choice(["datetime64[us]", "object"]),
-                 "timedelta": rng.choice(["object", "timedelta64[us]"]), "bytes": rng.choice(["object", "S"]), "object": "object", "mixed": "object", "datetime_ns": "datetime64[ns]"}[kind]
+                 "timedelta": rng.choice(["object", "timedelta64[us]"]), "bytes": rng.choice(["object", "S"]), "object": "object", "mixed": "object", "datetime_ns": "datetime64[ns]", "complex": "object"}[kind]
     return {"kind": kind, "values": vals, "marks": marks, "na_token": na_token, "flavour": flavour, "container": container, "dtype": dtype}
 
 def _na(token):
@@ -165,7 +168,7 @@ def execute(case):
     if judged_values and any(marks) and not dtype:
         fam = canon.dtype_kind(v)
         want = {"bool": ["object"], "int": ["float"], "float": ["float"], "str": ["string", "ustr"], "date": ["date", "datetime"],
-                "datetime": ["datetime"], "datetime_ns": ["datetime"], "timedelta": ["timedelta"] if flavour == "numpy" else ["object", "timedelta"], "bytes": ["object"], "object": ["object"]}[kind]
+                "datetime": ["datetime"], "datetime_ns": ["datetime"], "timedelta": ["timedelta"] if flavour == "numpy" else ["object", "timedelta"], "bytes": ["object"], "object": ["object"], "complex": ["object"]}[kind]
         if all(marks):
             # nothing but missing values: no numbers, dates or strings to infer a type from. Spelled None, the statement's
             # "None otherwise" applies (an object vector of None, which replace_na can fill with a value of any type);
